@@ -21,6 +21,7 @@ const (
 	FProp
 	FRemove
 	FMath
+	FStyle
 	FAll = 1<<iota - 1
 )
 
@@ -33,15 +34,18 @@ type Gen struct {
 	MaxRows int
 	MaxCols int
 	// constraints keyed by known findings (lane A); false = unconstrained
-	HFOncePerKind  bool // never set the same header/footer kind twice
-	hfUsed         map[string]bool
-	RectTablesOnly bool // no column/row structural edits after a merge
-	merged         map[int]bool
-	NoJPGName      bool // image file names keep an extension the library registers
-	WellFormedMath bool // formulas are well-formed OMML fragments
-	ntables        int
-	nparas         int
-	nimages        int
+	HFOncePerKind     bool // never set the same header/footer kind twice
+	hfUsed            map[string]bool
+	RectTablesOnly    bool // no column/row structural edits after a merge
+	merged            map[int]bool
+	NoJPGName         bool // image file names keep an extension the library registers
+	WellFormedMath    bool // formulas are well-formed OMML fragments
+	NoTableTemplates  bool // ApplyTableStyle only with style ids the registry defines
+	AllowStyleRemoval bool
+	styles            []string
+	ntables           int
+	nparas            int
+	nimages           int
 }
 
 func NewGen(r *sim.Rand) *Gen {
@@ -152,6 +156,7 @@ func (g *Gen) one(d int) (sim.Op, bool) {
 	add(FProp, 1, g.opProp)
 	add(FRemove, 1, g.opRemove)
 	add(FMath, 1, g.opMath)
+	add(FStyle, 1, g.opStyle)
 	if len(cs) == 0 {
 		return sim.Op{K: "para", S: []sim.Str{g.str(g.Text())}}, true
 	}
@@ -346,7 +351,10 @@ func (g *Gen) opTableFmt() (sim.Op, bool) {
 	case 4:
 		return sim.Op{K: "t.align", I: []int{t}, S: []sim.Str{g.str(r.Pick("left", "center", "right"))}}, true
 	case 5:
-		return sim.Op{K: "t.style", I: []int{t, r.Intn(64)}, S: []sim.Str{g.str(r.Pick("TableGrid", "TablePlain1", "TableNormal", "")), g.str("")}}, true
+		if g.NoTableTemplates {
+			return sim.Op{K: "t.style", I: []int{t, r.Intn(64)}, S: []sim.Str{g.str(""), g.str(r.Pick("ab", "a1"))}}, true
+		}
+		return sim.Op{K: "t.style", I: []int{t, r.Intn(64)}, S: []sim.Str{g.str(r.Pick("TableGrid", "TablePlain1", "TableNormal", "")), g.str(r.Pick("", "ab"))}}, true
 	case 6:
 		return sim.Op{K: "t.borders", I: []int{t, r.Range(1, 12), r.Intn(3)}, S: []sim.Str{g.str(borders[r.Intn(len(borders))]), g.str(colors[r.Intn(4)])}}, true
 	case 7:
@@ -473,6 +481,30 @@ func (g *Gen) opTOC() (sim.Op, bool) {
 func (g *Gen) opProp() (sim.Op, bool) {
 	r := g.R
 	return sim.Op{K: "prop", S: []sim.Str{g.str(r.Pick("title", "author", "subject", "keywords", "description", "category", "stats", "all")), g.str(g.Text())}}, true
+}
+
+// opStyle creates, uses or removes a custom style.
+func (g *Gen) opStyle() (sim.Op, bool) {
+	r := g.R
+	switch {
+	case len(g.styles) == 0 || r.Chance(0.4):
+		g.tag++
+		id := fmt.Sprintf("Custom%d", g.tag)
+		g.styles = append(g.styles, id)
+		typ := r.Pick("paragraph", "paragraph", "character")
+		if r.Bool() {
+			return sim.Op{K: "style.add", S: []sim.Str{g.str(id), g.str("custom " + id), g.str(typ), g.str(r.Pick("", "Normal", "Heading1"))}}, true
+		}
+		return sim.Op{K: "style.quick", S: []sim.Str{g.str(id), g.str("quick " + id), g.str(typ), g.str(r.Pick("", "Normal"))}, I: []int{r.Intn(2), r.Range(8, 30), r.Intn(2)}}, true
+	case r.Chance(0.75) && g.nparas > 0:
+		return sim.Op{K: "p.style", I: []int{r.Intn(64)}, S: []sim.Str{g.str(g.styles[r.Intn(len(g.styles))])}}, true
+	case g.AllowStyleRemoval:
+		i := r.Intn(len(g.styles))
+		id := g.styles[i]
+		g.styles = append(g.styles[:i], g.styles[i+1:]...)
+		return sim.Op{K: "style.rm", S: []sim.Str{g.str(id)}}, true
+	}
+	return sim.Op{}, false
 }
 
 // opMath adds a formula. WellFormedMath restricts the content to well-formed
